@@ -13,6 +13,7 @@ import json
 import os
 import random as _random
 import select as _select
+import signal
 import threading
 import time
 
@@ -273,9 +274,11 @@ def real_run(wk, mx, jit, mode, nreq, seed, bind="tcp"):
                 try:
                     if a is None:
                         a = s.connect(timeout=8)
-                    st, body, info = s.get("/gen?status=304&who=1", sock=a, keepalive=True, timeout=4)
+                    # (alternating with the WSGI exc_info pattern: a second start_response replaces the first before any output)
+                    path = "/gen?status=304&who=1" if i % 2 == 0 else "/gen?status=200&sizes=2&cl=2&who=1&excinfo=1"
+                    st, body, info = s.get(path, sock=a, keepalive=True, timeout=4)
                     pid = int(info.get("headers", {}).get("x-worker", 0) or 0)
-                    ok = st == 304 and pid and info["complete"]
+                    ok = st in (304, 200) and pid and info["complete"]
                     if ok:
                         ev.append({"e": "resp", "ok": True, "pid": pid_id(pid)})
                     closing = (not ok) or info.get("headers", {}).get("connection", "").lower() == "close"
@@ -289,6 +292,18 @@ def real_run(wk, mx, jit, mode, nreq, seed, bind="tcp"):
                         one("/pid")
             if a is not None:
                 a.close()
+        elif mode == "mstop":
+            # the master is not scheduled (SIGSTOP) while both workers reach their limit and exit: one SIGCHLD stands for
+            # both; once it runs again it must reap and replace both
+            os.kill(s.pid, signal.SIGSTOP)
+            try:
+                for i in range(nreq):
+                    if all(rp.proc_state(p) in (None, "Z") for p in initial):
+                        break
+                    one("/pid")
+            finally:
+                os.kill(s.pid, signal.SIGCONT)
+            time.sleep(1.5)
         elif mode == "twolisten":
             # two listeners: a long request on the first one takes the worker to its limit; a client of the second
             # listener that arrives two seconds later belongs to the replacement
@@ -317,7 +332,7 @@ def real_run(wk, mx, jit, mode, nreq, seed, bind="tcp"):
         ev.append({"e": "end", "alive": sorted(alive), "initial": sorted(pid_id(p) for p in initial)})
         tr = {"max": mx, "jit": jit, "allow": allow, "workers": nworkers, "npids": max(len(pids), 1),
               "initial": sorted(pid_id(p) for p in initial), "ev": ev}
-        return tr, {"where": ("real-" + mode if mode in ("burst", "parked", "drain", "twolisten", "ka0", "bodiless") else "real") + ("-unix" if bind == "unix" else ""), "wk": wk, "mode": mode, "nreq": nreq,
+        return tr, {"where": ("real-" + mode if mode in ("burst", "parked", "drain", "twolisten", "ka0", "bodiless", "mstop") else "real") + ("-unix" if bind == "unix" else ""), "wk": wk, "mode": mode, "nreq": nreq,
                     "fails": [e.get("why") for e in ev if e.get("e") == "resp" and not e["ok"]][:3]}
     finally:
         s.cleanup()
@@ -354,7 +369,7 @@ def c18(ctx):
             ("eventlet", 2, 0, "twolisten", 0), ("gthread", 3, 0, "ka0", 6),
             # a unix-socket bind: the path must stay connectable through the recycling
             ("gthread", 3, 0, "ka0", 6, "unix"), ("eventlet", 3, 0, "ka0", 6, "unix"),
-            ("gevent", 3, 0, "bodiless", 8)]
+            ("gevent", 3, 0, "bodiless", 8), ("gevent", 4, 0, "bodiless", 8), ("sync", 2, 0, "mstop", 8)]
     if not ctx.quick:
         plan += [("gevent", 2, 0, "twolisten", 0), ("gthread", 2, 0, "twolisten", 0), ("sync", 2, 0, "twolisten", 0),
                  ("sync", 3, 0, "ka0", 6), ("gevent", 3, 0, "ka0", 6), ("sync", 3, 0, "ka0", 6, "unix"), ("gevent", 3, 0, "ka0", 6, "unix"),
@@ -375,20 +390,49 @@ def c18(ctx):
         ths = [threading.Thread(target=runner, args=(i,)) for i in range(base, min(base + par, len(plan)))]
         [t.start() for t in ths]
         [t.join() for t in ths]
-    for r in results:
+    first_real = len(traces)
+    for i, r in enumerate(results):
         if isinstance(r, Exception):
             raise r
         traces.append(r[0])
-        metas.append(r[1])
+        metas.append(dict(r[1], plan_index=i))
     ctx.coverage["real_process_runs"] = len(plan)
     verdicts, stats = tlc.validate_batch("RecycleTrace", "RecycleTrace.cfg", traces, name="RecycleTrace_C18")
     ctx.add_traces(len(traces), stats)
+    # a real-process run that fails is repeated once (same arguments): what is reported is what fails both times -- the
+    # runs depend on the wall clock, a verdict must not depend on how busy the machine was
+    again = [k for k in range(first_real, len(traces)) if verdicts[k][0] != "ok"]
+    if again:
+        for k in again:
+            plan_i = metas[k]["plan_index"]
+            results[plan_i] = None
+            runner(plan_i)
+            if isinstance(results[plan_i], Exception):
+                raise results[plan_i]
+        v2, _ = tlc.validate_batch("RecycleTrace", "RecycleTrace.cfg", [results[metas[k]["plan_index"]][0] for k in again],
+                                   name="RecycleTrace_C18_again")
+        unconfirmed = 0
+        for k, (vv, st) in zip(again, v2):
+            if vv == "ok":
+                ctx.notes.append("real-process run %s failed once (%s) and passed when repeated: not reported"
+                                 % (list(plan[metas[k]["plan_index"]]), verdicts[k][0]))
+                verdicts[k] = ("ok", 0)
+                unconfirmed += 1
+            else:
+                traces[k], metas[k] = results[metas[k]["plan_index"]][0], dict(results[metas[k]["plan_index"]][1], plan_index=metas[k]["plan_index"])
+                verdicts[k] = (vv, st)
+        ctx.coverage["real_process_runs_repeated"] = {"repeated": len(again), "passed_when_repeated": unconfirmed}
     for t, m, (v, step) in zip(traces, metas, verdicts):
         if v == "ok":
             continue
         fam = m.get("wk") or m.get("kind") or "sync"
         fam = {"gevent": "async", "eventlet": "async"}.get(fam, fam)
-        sig = "C18/%s/family=%s/%s" % (v, fam, m["where"])
+        where = m["where"]
+        if where in ("real-burst", "real-drain") and fam == "gthread" and not (where == "real-burst" and t["max"] == 3):
+            # (the threaded worker's recorded defect - connections accepted at the limit are not dispatched - shows in
+            # these configurations too; they are listed with the configuration, the burst run with max = 3 is not)
+            where += ",max=%d" % t["max"]
+        sig = "C18/%s/family=%s/%s" % (v, fam, where)
         ctx.violation(sig, "%s: %s max=%s jit=%s events=%s" % (v, json.dumps(m), t["max"], t["jit"], json.dumps(t["ev"])[:400]),
                       {"trace": t, "meta": m})
     for t, m in list(zip(traces, metas))[:1] + list(zip(traces, metas))[-2:]:
